@@ -579,7 +579,12 @@ def find_isometry(form, partial_map, force_oriented=False):
 
     kernel_basis = kernel(orth_partial @ form).swapaxes(-1, -2)
 
-    orth_kernel = indefinite_orthogonalize(form, kernel_basis)
+    # orthonormalize the complement by diagonalizing the restriction of
+    # the form to it. (Gram-Schmidt breaks down here whenever one of the
+    # vectors in the kernel basis happens to be lightlike.)
+    gram = kernel_basis @ form @ kernel_basis.swapaxes(-1, -2)
+    gram_eigs, gram_vecs = eigh(gram)
+    orth_kernel = normalize(gram_vecs.swapaxes(-1, -2) @ kernel_basis, form)
 
     iso = np.concatenate([orth_partial, orth_kernel], axis=-2)
 
